@@ -553,6 +553,20 @@ pub fn gen_c12(seed: u64, thorough: bool, only: Option<u64>, out: &mut Out) {
             Some(prev) if *prev != fin.to_vec() => verdict = Err(format!("the output for tag {} depends on the blinding", md)),
             _ => {}
           }
+          // the same finalisation on a thread that never served a request before: same 32 bytes
+          if rep == 0 {
+            let (i2, u2) = (input.clone(), ub.as_bytes().to_vec());
+            let fresh = std::thread::spawn(move || {
+              let mut f = [0u8; 32];
+              Client::finalize(&i2, md, &Point::from(&u2[..]), &mut f);
+              f
+            })
+            .join()
+            .ok();
+            if fresh != Some(fin) {
+              verdict = Err(format!("the finalised output for tag {} (input of {} bytes) depends on what the calling thread finalised before", md, input.len()));
+            }
+          }
           per_tag.insert(md, fin.to_vec());
         }
       }
@@ -572,6 +586,30 @@ pub fn gen_c12(seed: u64, thorough: bool, only: Option<u64>, out: &mut Out) {
     let distinct: BTreeSet<&Vec<u8>> = per_tag.values().collect();
     if distinct.len() != per_tag.len() {
       verdict = Err("two tags give the same output for one input".to_string());
+    }
+    // every request, also one made after OTHER tags were punctured, gives the same output: puncture tags around the
+    // registered ones (one registered tag last) and ask again for the rest
+    {
+      let mut gone: Vec<u8> = vec![mds[0] ^ 1, mds[0] ^ 2, mds[0].wrapping_add(5), mds[0] ^ 0x80];
+      gone.retain(|g| !mds.contains(g));
+      gone.push(mds[0]);
+      for g in gone {
+        w.puncture(0, g);
+        for &md in &mds {
+          if md == g || !per_tag.contains_key(&md) || md == mds[0] && g == mds[0] {
+            continue;
+          }
+          let (b, rs) = blind(&input);
+          if let Some(ev) = w.eval(0, md, &b, verifiable) {
+            let ub = Client::unblind(&ev.output, &CurveScalar::from(rs));
+            let mut fin = [0u8; 32];
+            Client::finalize(&input, md, &ub, &mut fin);
+            if per_tag.get(&md) != Some(&fin.to_vec()) {
+              verdict = Err(format!("the output for tag {} changed after tag {} was punctured", md, g));
+            }
+          }
+        }
+      }
     }
     // differs between inputs and between servers: a second input on this server, the same input on another server
     let mut input2 = input.clone();
@@ -671,6 +709,40 @@ pub fn gen_c13(seed: u64, thorough: bool, only: Option<u64>, out: &mut Out) {
     let ev_back: Evaluation = serde_json::from_str(&js).expect("evaluation JSON parses");
     let prb_back = ev_back.proof.as_ref().unwrap().serialize_to_bincode().unwrap();
     emit(&pkb, &b, ev_back.output.as_bytes(), Some(&prb_back), md, true, "evaluation restored from JSON", out);
+    // the same proof with a scalar written non-canonically (value + group order): different bytes, must be refused
+    {
+      let ell: [u8; 32] = [0xed, 0xd3, 0xf5, 0x5c, 0x1a, 0x63, 0x12, 0x58, 0xd6, 0x9c, 0xf7, 0xa2, 0xde, 0xf9, 0xde, 0x14, 0, 0, 0, 0, 0, 0, 0, 0, 0, 0, 0, 0, 0, 0, 0, 0x10];
+      for half in 0..2 {
+        let mut p2 = prb.clone();
+        let mut carry = 0u16;
+        for i in 0..32 {
+          let v = p2[32 * half + i] as u16 + ell[i] as u16 + carry;
+          p2[32 * half + i] = v as u8;
+          carry = v >> 8;
+        }
+        if carry != 0 {
+          continue;
+        }
+        let obs = match ProofDLEQ::load_from_bincode(&p2) {
+          Ok(pr) => {
+            let ev2 = Evaluation { output: Point::from(&outb[..]), proof: Some(pr) };
+            match guarded(|| Client::verify(&pk, &Point::from(&b[..]), &ev2, md)) {
+              Some(true) => "loaded-and-verified",
+              Some(false) => "loaded",
+              None => "panic",
+            }
+          }
+          Err(_) => "err",
+        };
+        let v = if obs == "err" { Ok(()) } else { Err(format!("a proof whose {} scalar is written as value + group order was not refused ({})", if half == 0 { "challenge" } else { "response" }, obs)) };
+        let o = match guarded(|| ProofDLEQ::load_from_bincode(&p2).map_err(|e| err_name(&e))) {
+          Some(Ok(p)) => format!("ok {}", hex(&p.serialize_to_bincode().unwrap())),
+          Some(Err(e)) => format!("E:{}", e),
+          None => "panic".into(),
+        };
+        out.case(format!("proof.load {}", hex(&p2)), o, v);
+      }
+    }
     // replacements: another honest value, neighbour, identity/zero, value from another server or tag
     let flip = |v: &[u8], i: usize| { let mut x = v.to_vec(); x[i] ^= 1; x };
     let one = Scalar::ONE;
